@@ -86,7 +86,7 @@ def run(tier, wd):
     # ---- syntactic: every sequence of token kinds up to length 4 (5), declared and undeclared names
     sub = os.path.join(wd, "parse")
     os.makedirs(sub, exist_ok=True)
-    resp = core.run_tlc(sub, "MCParser", cfg="MCParser4" if q else "MCParser5", timeout=3000, extra=["-maxSetSize", "10000000"])
+    resp = core.run_tlc(sub, "MCParser", cfg="MCParser4" if q else "MCParser5", timeout=3000)
     core.tlc_must_finish(resp, "SpecParser")
     rep.add_tlc(resp)
     seqs = [json.loads(p) for p in sorted(set(resp.printed("PARSE")))]
